@@ -26,6 +26,8 @@ Decided clauses:
         builds per-lane counters with 32-bit adds cannot silently diverge from the others when the low word wraps in a batch.
   R10.8 the SSE2 and the portable crypto_verify_n both return a verdict that depends on every byte and combine the per-position
         differences with OR only (C14's engine per configuration): XOR-accumulated block differences cancel in the SIMD build only.
+  R10.9 every X25519 ladder entry reads scalar and point completely before its first write through q (C05's R5.3 per backend): in-place
+        calls give the same result on every backend.
 NOT decided: byte-identity of results across backends / build configurations (equivalence of
 implementations).
 """
@@ -415,6 +417,20 @@ def run(ctx, chk):
         def floor(self, rule, *a, **kw):
             return self._c.floor("R10.8/" + rule, *a, **kw)
     c14.verify_rules(prog, _Renamed8(chk))
+
+    # ---- R10.9 the portable and the AVX X25519 ladder both consume scalar and point before touching the output (C05's R5.3 engine):
+    # a backend that uses q as scratch gives [n]n for q == p while the other backend still gives [n]p
+    from . import c05
+
+    class _Renamed9(_Renamed):
+        def ob(self, rule, *a, **kw):
+            if "key" in kw and kw["key"]:
+                kw["key"] = "R10.9/" + kw["key"]
+            return self._c.ob("R10.9/" + rule, *a, **kw)
+
+        def floor(self, rule, *a, **kw):
+            return self._c.floor("R10.9/" + rule, *a, **kw)
+    c05.inplace_rule(prog, _Renamed9(chk))
 
     # ---- R10.6 the portable AES block helpers use every bit of their integer operands (E11) ----------------------------------
     softaes_rule(ctx, prog, chk)
